@@ -34,6 +34,16 @@ def main():
     notes = open(os.path.join(src, 'notes.md')).read() if os.path.exists(os.path.join(src, 'notes.md')) else ''
     meta = dict(name=name, property=prop, source='independent sub-agent given only the property text and a scratch worktree',
                 needs_to_manifest=notes[:3000])
+    old_meta = os.path.join(dst, 'meta.json')
+    if skip_confirm and os.path.exists(old_meta):
+        try:
+            om = json.load(open(old_meta))
+            for k in ('patch_applies', 'suite_with_change', 'suite_passes_with_change', 'demo_with_change', 'demo_fails_with_change',
+                      'demo_without_change', 'demo_passes_without_change', 'confirmed'):
+                if k in om:
+                    meta[k] = om[k]
+        except ValueError:
+            pass
     env = dict(os.environ, CARGO_TARGET_DIR='/tmp/ev_target', CARGO_NET_OFFLINE='true')
     if not skip_confirm:
         wt = '/tmp/ev/' + name
@@ -68,16 +78,32 @@ def main():
     assert rc == 0, out
     results = {}
     try:
-        props = [prop]
         if run_all:
-            m = json.load(open(os.path.join(VERIF, 'MANIFEST.json')))
-            props = [prop] + [c['property_id'] for c in m['checks'] if c['property_id'] != prop]
-        for p in props:
             t0 = time.time()
-            rc, out = sh('./check %s --tier quick' % p, cwd=VERIF, timeout=3000)
+            rc, out = sh('./check ALL --tier quick', cwd=VERIF, timeout=6000)
+            cur = {}
+            for l in out.split('\n'):
+                m = re.match(r'(VIOLATION|KNOWN-FINDING:|OK) property=(C\d+)', l)
+                if m:
+                    cur.setdefault(m.group(2), []).append(l[:400])
+                elif l.startswith('UNDECIDED'):
+                    cur.setdefault('_undecided', []).append(l[:300])
+            m = json.load(open(os.path.join(VERIF, 'MANIFEST.json')))
+            for c in m['checks']:
+                p = c['property_id']
+                lines = cur.get(p, [])
+                rcp = 1 if any(l.startswith('VIOLATION') for l in lines) else (0 if any(l.startswith('OK') for l in lines) else 2)
+                results[p] = dict(rc=rcp, lines=lines[:8])
+            results['_undecided'] = sorted(set(cur.get('_undecided', [])))[:10]
+            results['_wall'] = round(time.time() - t0, 1)
+            print('violations:', sorted(p for p in results if p.startswith('C') and results[p]['rc'] == 1),
+                  'undecided:', sorted(p for p in results if p.startswith('C') and results[p]['rc'] == 2))
+        else:
+            t0 = time.time()
+            rc, out = sh('./check %s --tier quick' % prop, cwd=VERIF, timeout=3000)
             lines = [l for l in out.split('\n') if l.startswith(('VIOLATION', 'KNOWN-FINDING', 'UNDECIDED', 'OK '))]
-            results[p] = dict(rc=rc, lines=[l[:400] for l in lines][:12], wall=round(time.time() - t0, 1))
-            print(p, rc, *[l[:300] for l in lines[:6]], sep='\n   ')
+            results[prop] = dict(rc=rc, lines=[l[:400] for l in lines][:12], wall=round(time.time() - t0, 1))
+            print(prop, rc, *[l[:300] for l in lines[:6]], sep='\n   ')
     finally:
         sh('git -C %s checkout -- .' % REPO)
     meta['checks'] = results
